@@ -4,20 +4,30 @@ FRAGMENT = {
  'world': 'c09',
  'level': 'exploration',
  'level_text': 'seeded exploration of multiplex schedules x packet faults (tens of thousands of runs per quick check) against a reference reassembler; both '
-               'XDS consumers (vbi_xds_demux and the service decoder path) run real code under ASan+UBSan; sampling, not proof',
+               'XDS consumers (vbi_xds_demux and the service decoder path) run real code under ASan+UBSan; a quarter of the runs transmit a programme guide '
+               '(current, future and channel class items repeated round after round, optional programme boundary) and check that programme id number and '
+               'name are announced, not only that nothing wrong is announced; sampling, not proof',
  'level_note': 'trusted: the reference reassembler (written from the statement), the simulated field-2 multiplexer, clang sanitizers; payload bytes restricted '
                'to 0x20-0x7F; class/type outside the documented tables and NUL-pad-then-more-payload packets are checked for safety and content but may be '
-               'delivered or not',
+               'delivered or not; the announcement clause is bounded liveness with a deliberately loose bound (PROG_INFO carrying the id number / name must have '
+               'been raised once the packet was received 4 times while nothing of its class changed and no fault, parity error, undetermined packet or '
+               'NETWORK event occurred in that time; the second-occurrence rule needs 2, an id-number change in between 3); length, rating and the other '
+               'items are only checked for fidelity, not for being announced',
  'design_ref': 'DESIGN.md section 6 (C09)',
  'quick': {'runs': 40000, 'budget_s': 25, 'workers': 16},
  'thorough': {'runs': 4000000, 'budget_s': 600, 'workers': 16, 'det_sample': 200},
  'rule': 'one evaluation = one simulated run: 1-4 XDS packet sources, a caption source and an idle source multiplexed pair by pair by the seeded scheduler '
-         '(continue codes inserted on resumption), faults attached to packets; non-trivial = the reference delivered >= 2 valid packets and >= 1 packet was '
+         '(continue codes inserted on resumption), faults attached to packets; 1 run in 4 is a programme guide: 2-10 items of the current, future and channel '
+         'class repeated 5-8 rounds, optionally a programme boundary with new contents and 5-8 more rounds, sent by one carousel, one carousel per class '
+         'or one source per item (counters guide_runs, guide_runs_programme_boundary, live_checks = announcement clause evaluated, '
+         'live_checks_other_class_renewed = evaluated while the other programme class changed during the confirmation, live_disturbances); non-trivial = the reference delivered >= 2 valid packets and >= 1 packet was '
          'interrupted and resumed; distinct = distinct event-log hash',
  'fault_kinds': ['fault_checksum', 'fault_parity', 'fault_nostart', 'fault_midnul', 'fault_noterm', 'fault_restart', 'fault_parity_term'],
  'components': {'real': ['src/xds_demux.c', 'src/caption.c (xds_separator, xds_decoder)', 'src/vbi.c (vbi_decode, events)'],
                 'stub': ['field-2 multiplexer = seeded scheduler over source tasks', 'fault injector (parity/checksum/start/terminator/pad)']},
  'assumptions': ['reference reassembler written from the property statement (EIA-608 XDS framing rules)',
+                 '"announced after the documented repeat" is read as: the announcement must come when the identical packets keep repeating undisturbed '
+                 '(an announcement that never comes is a violation); how soon is bounded loosely (4 receptions)',
                  'payload bytes are 0x20-0x7F as XDS requires; packets with a NUL pad followed by more payload are treated as undetermined for delivery '
                  '(size/safety still checked)']}
 }
